@@ -57,6 +57,7 @@ type fmtG struct {
 
 	mu      sync.Mutex
 	subMemo map[string]string
+	decMemo map[string]verdict
 }
 
 var (
@@ -415,6 +416,32 @@ func (f *fmtG) decode(b []byte, sub bool) verdict {
 	if F.IsZero(y) {
 		v.why = "acc_compressed_y0"
 	}
+	return v
+}
+
+// decodeCached memoises decode (pool points recur in long slices).
+func (f *fmtG) decodeCached(b []byte, sub bool) verdict {
+	key := string(b)
+	if sub {
+		key += "S"
+	} else {
+		key += "N"
+	}
+	f.mu.Lock()
+	v, ok := f.decMemo[key]
+	f.mu.Unlock()
+	if ok {
+		return v
+	}
+	v = f.decode(b, sub)
+	f.mu.Lock()
+	if f.decMemo == nil {
+		f.decMemo = map[string]verdict{}
+	}
+	if len(f.decMemo) < 1<<14 {
+		f.decMemo[key] = v
+	}
+	f.mu.Unlock()
 	return v
 }
 
